@@ -156,6 +156,7 @@ func (r *run) finals() {
 }
 
 func runHistory10(c *vlib.Ctx, h *asm.History) {
+	c.Step()
 	r := newRun(c, h)
 	r.viol = func(key, desc string) { c.Violation(key, desc, map[string]any{"history": h.String()}) }
 	pool := tcpassembly.NewStreamPool(r)
